@@ -1,25 +1,41 @@
 """C14 - storing issuance chains outside the backend is invisible to readers.
 
 spec/ctfe/ChainStore.tla: submissions, sequencing, legacy full-chain entries, reads, the detached cache write as a
-separate action, storage faults / dropped / damaged rows, for the noop cache and LRU capacities unbounded / 1 / 2.
+separate action, storage faults / dropped / damaged rows, for the noop cache and LRU capacities unbounded / 1 / 2, and
+for three storage layers below the cache (constant Dialect): "memory", "mysql" (INSERT; duplicate key = error 1062,
+swallowed by Add), "postgresql" (INSERT ... ON CONFLICT DO NOTHING).  Per dialect the specification states the
+de-duplication path, what a re-Add does to the row that is there, the error classes of a SQL connection and what the
+storage layer hands to the service.
 Binding: behaviours replayed on twin real instances (direct and external storage; the real cache behind a gate that
 lets the harness fire the detached cache.Set where the behaviour says), every served entry compared byte for byte;
-storage call counts compared with the specification's hit/miss; plus an ungated concurrent run under -race.
+storage call counts compared with the specification's hit/miss.  The external twin's storage is, per Dialect, the
+in-memory stand-in or the repository's real mysql / postgresql IssuanceChainStorage running on an in-process
+database/sql driver (harness/sqlfake) that interprets the statements with the dialect's semantics; what the storage
+layer answers and which path the database took are compared with the specification step by step.  Plus an ungated
+concurrent run under -race over the three storage layers.
 """
 import json
+from concurrent.futures import ThreadPoolExecutor
 
 from vlib import Infra
 
 CAPS = ["Capm1", "Cap0", "Cap1", "Cap2"]
+DIALECTS = ["", "Mysql", "Postgresql"]  # cfg suffix; "" = memory
 
 
 def run(ctx, replay=None):
     ctx.assumptions += [
-        "in-memory IssuanceChainStorage standing in for MySQL/PostgreSQL (unknown key = error, idempotent Add); the real "
+        "the SQL servers are replaced by an in-process database/sql driver (harness/sqlfake) that holds the IssuanceChain "
+        "table and interprets the statements the repository's mysql / postgresql IssuanceChainStorage send with the "
+        "dialect's semantics (placeholders, identifier rules, primary key, NOT NULL, INSERT IGNORE / ON DUPLICATE KEY / "
+        "ON CONFLICT, the drivers' own error values: *mysql.MySQLError 1062, *pgconn.PgError 23505, driver.ErrBadConn); "
+        "a statement it cannot interpret is an error.  The network protocol, the real drivers' encoders and the servers' "
+        "transaction machinery are out of scope; database/sql itself (pool, retry on a lost connection, Scan) is the real one",
+        "the in-memory IssuanceChainStorage (unknown key = error, Add assigns) is kept as a third storage layer; the real "
         "lru / noop cache implementations behind a gating wrapper; TTL expiry exercised only in the ungated concurrent run "
         "where the law is output equality",
         "twin instances share PKI, log key and clock; 5 certificates over 3 issuance chains including the empty chain "
-        "(trusted root submitted alone)",
+        "(trusted root submitted alone); three of them share one chain hash (the de-duplication path)",
     ]
     if replay:
         with open(replay) as f:
@@ -27,16 +43,25 @@ def run(ctx, replay=None):
         path = ctx.write_ndjson("replay.ndjson", [beh])
         ctx.go_test("cctfe", run="TestChainStore$", env={"VERIF_BEHAVIOURS": path}, timeout=3000)
         return
+    nsim = {"": ctx.pick(150, 3000), "Mysql": ctx.pick(110, 2500), "Postgresql": ctx.pick(110, 2500)}
+    # the TLC runs are independent of each other: a few at a time (ctx.tlc keeps its per-run records by appending;
+    # the state counts are added here, in one thread)
+    exhaustive = [(cap, d) for d in DIALECTS for cap in CAPS]
+    with ThreadPoolExecutor(max_workers=3) as pool:
+        for r in list(pool.map(lambda cd: ctx.tlc("ctfe", "MCChainStore", "ChainStore%s%s.cfg" % cd, workers=5, timeout=1500, count=False), exhaustive)):
+            ctx.states += r.distinct
+            ctx.transitions += r.generated
+    sims = [(cap, d) for d in DIALECTS for cap in CAPS]
+    with ThreadPoolExecutor(max_workers=4) as pool:
+        results = list(pool.map(lambda cd: ctx.tlc("ctfe", "MCChainStore", "ChainStoreSim%s%s.cfg" % cd, simulate=nsim[cd[1]], depth=34, count=False), sims))
     behs = []
-    for cap in CAPS:
-        ctx.tlc("ctfe", "MCChainStore", "ChainStore%s.cfg" % cap, workers=8, timeout=1500)
-        r = ctx.tlc("ctfe", "MCChainStore", "ChainStoreSim%s.cfg" % cap, simulate=ctx.pick(150, 3000), depth=34, count=False)
+    for (cap, d), r in zip(sims, results):
         b = r.records.get("BEH", [])
         if not b:
-            raise Infra("no behaviours for " + cap)
+            raise Infra("no behaviours for " + cap + d)
         behs += b
     path = ctx.write_ndjson("behaviours.ndjson", behs)
     ctx.go_test("cctfe", run="TestChainStore$", env={"VERIF_BEHAVIOURS": path}, timeout=3000)
     ctx.go_test("cctfe", run="TestChainStoreBackendFaults$", timeout=600, name="backendfaults")
-    ctx.go_test("cctfe", run="TestChainStoreConcurrent$", env={"VERIF_ROUNDS": ctx.pick(6, 40)}, race=True, timeout=3000,
+    ctx.go_test("cctfe", run="TestChainStoreConcurrent$", env={"VERIF_ROUNDS": ctx.pick(6, 42)}, race=True, timeout=3000,
                 name="concurrent")
